@@ -84,6 +84,8 @@ class Registry:
         self.ufuncs = {}
         self.ghostvars = {}
         self.folds = {}
+        self.sites = []
+        self.opaques = set()
         self.axioms_text = []
         self.props = {}
 
@@ -137,6 +139,14 @@ class Registry:
         """Fold of `term` over the values of a dict kind: name(d, *params) = sum_{k in d} term(d[k], *params).
         The defining equations (empty, insert, overwrite, delete) are instantiated at every update."""
         self.folds[name] = {'over': over, 'term': term, 'params': list(params), 'ret': ret}
+
+    def site(self, caller, callee, asserts, ordinal=None):
+        """Obligations over the caller's locals at its call(s) of `callee` (short name, e.g. 'post')."""
+        self.sites.append({'caller': caller, 'callee': callee, 'asserts': asserts, 'ordinal': ordinal})
+
+    def opaque(self, dotted):
+        """A module-level object whose methods only build strings (e.g. zknamespace.path): calls return an opaque Str."""
+        self.opaques.add(dotted)
 
     def axiom(self, name, text, note=''):
         """A definitional axiom of a witness function (assumed in every verification; listed in evidence)."""
